@@ -151,13 +151,13 @@ theorem geoOK_replace_last {l : List Seg} {b g : Seg} (h : GeoOK (l ++ [b])) (hg
     (hs : g.start = b.start) : GeoOK (l ++ [g]) :=
   (geoOK_snoc l g).mpr ⟨h.init, hg, by rw [hs]; exact h.last_start⟩
 
-theorem setLast_snoc (l : List Seg) (b g : Seg) : setLast (l ++ [b]) g = l ++ [g] := by
+theorem setLast_concat (l : List Seg) (b g : Seg) : setLast (l ++ [b]) g = l ++ [g] := by
   unfold setLast
   split
   · rename_i h; simp at h
   · rw [List.dropLast_concat]
 
-theorem modLast_snoc (l : List Seg) (b : Seg) (f : Seg → Seg) : modLast (l ++ [b]) f = l ++ [f b] := by
+theorem modLast_concat (l : List Seg) (b : Seg) (f : Seg → Seg) : modLast (l ++ [b]) f = l ++ [f b] := by
   unfold modLast
   rw [List.getLast?_concat, List.dropLast_concat]
 
@@ -167,14 +167,14 @@ theorem geoOK_modLast {l : List Seg} {f : Seg → Seg} (h : GeoOK l)
     (hf : ∀ g, l.getLast? = some g → SegGeo g → SegGeo (f g) ∧ (f g).start = g.start) : GeoOK (modLast l f) := by
   rcases snoc_cases l with rfl | ⟨l', b, rfl⟩
   · exact geoOK_nil
-  · rw [modLast_snoc]
+  · rw [modLast_concat]
     have := hf b List.getLast?_concat h.last
     exact geoOK_replace_last h this.1 this.2
 
 theorem geoOK_setLast {l : List Seg} {b g : Seg} (h : GeoOK l) (hb : l.getLast? = some b) (hg : SegGeo g)
     (hs : g.start = b.start) : GeoOK (setLast l g) := by
   rw [eq_snoc_of_getLast? hb] at h ⊢
-  rw [setLast_snoc]
+  rw [setLast_concat]
   exact geoOK_replace_last h hg hs
 
 theorem mem_setLast {l : List Seg} {g x : Seg} (hx : x ∈ setLast l g) : x ∈ l ∨ x = g := by
@@ -323,9 +323,9 @@ theorem addSegment_geo {c : Comp} (h : GeoOK c.segs) {g : Seg} (hg : SegGeo g) :
       · exact ⟨h, Or.inl rfl⟩
       · split
         · refine ⟨geoOK_setLast h hlast hg hs, Or.inr ?_⟩
-          rw [eq_snoc_of_getLast? hlast, setLast_snoc, endOf_snoc]
+          rw [eq_snoc_of_getLast? hlast, setLast_concat, endOf_snoc]
         · refine ⟨geoOK_setLast h hlast ((h.getLast hlast).same rfl rfl rfl) rfl, Or.inl ?_⟩
-          rw [eq_snoc_of_getLast? hlast, setLast_snoc, endOf_snoc, endOf_snoc]
+          rw [eq_snoc_of_getLast? hlast, setLast_concat, endOf_snoc, endOf_snoc]
 
 /-! ### the reversed form (head = back), for the mutators written over `segs.reverse` -/
 
